@@ -494,7 +494,7 @@ pub fn run(tier: Tier, seed: u64) -> i32 {
         check_inner(sub, &g, &input, l)
     });
     ctx.finish(&check_case, RULE, ASSUMPTIONS, &|l| {
-        for k in ["backtracked_over_tokens_before_an_observation", "observation_under_and_is_or_rewind", "observation_after_recovery", "with_state_on_path", "inspector_rewound", "observations_checked_against_direct_fold", "text_observations_checked", "text_final_states_checked"] {
+        for k in ["state_guard_under_not", "coarse_eq_observations_checked", "backtracked_over_tokens_before_an_observation", "observation_under_and_is_or_rewind", "observation_after_recovery", "with_state_on_path", "inspector_rewound", "observations_checked_against_direct_fold", "text_observations_checked", "text_final_states_checked"] {
             if l.counters.get(k).copied().unwrap_or(0) == 0 {
                 return Err(format!("class '{}' is empty", k));
             }
